@@ -1,8 +1,13 @@
 module klogverif
 
-go 1.24
+go 1.26.0
 
 require github.com/jotaen/klog v0.0.0
+
+require (
+	golang.org/x/mod v0.41.0 // indirect
+	golang.org/x/sync v0.23.0 // indirect
+)
 
 require (
 	cloud.google.com/go v0.118.2 // indirect
@@ -15,6 +20,7 @@ require (
 	github.com/kballard/go-shellquote v0.0.0-20180428030007-95032a82bc51 // indirect
 	github.com/posener/complete v1.2.3 // indirect
 	github.com/riywo/loginshell v0.0.0-20200815045211-7d26008be1ab // indirect
+	golang.org/x/tools v0.50.0
 )
 
 replace github.com/jotaen/klog => /repo
